@@ -75,7 +75,7 @@ var ReqVariants = map[string][]string{
 	"version": {"canonical", "absent", "case-name", "blanks", "wrong-12", "wrong-8", "wrong-130", "empty", "dup-same", "dup-diff", "list", "cr-tail",
 		// spellings a numeric parser takes for 13 but that are not the version token "13" (RFC 6455 §4.2.1: no leading zeros)
 		"num-013", "num-0013", "num-+13", "num-13.0", "num-0xd", "num-1_3", "num-13e0"},
-	"key":   {"canonical", "absent", "case-name", "blanks", "len23", "len25", "nonbase64-24", "decodes-17", "decodes-18", "empty", "dup-same", "dup-diff", "len16raw", "cr-inside", "cr-cr-tail", "cr-tail"},
+	"key":   {"canonical", "absent", "case-name", "blanks", "len23", "len25", "nonbase64-24", "decodes-17", "decodes-18", "empty", "dup-same", "dup-diff", "len16raw", "cr-inside", "cr-cr-tail", "cr-tail", "noncanonical-pad-bits"},
 	"extra": {"none", "some", "long-value", "many", "no-colon-line", "empty-name", "cr-only-line", "token-names", "blank-value", "response-only-headers"},
 	"eol":   {"crlf", "lf"},
 }
@@ -332,6 +332,16 @@ func BuildReq(rng *rand.Rand, choice map[string]string, protoHdrs, extHdrs []str
 	case "cr-tail":
 		crTail(keyHdr, key, 400)
 		r.Key = ""
+	case "noncanonical-pad-bits":
+		// 24 characters that decode (with a decoder that is not strict) to 16 bytes, the four unused low bits of the
+		// 22nd character not zero: another SPELLING of the same 16 bytes. Whether a server takes it is open; if it
+		// does, the accept value is computed over the text it received (RFC 6455 4.2.2 5.4: "the value of the
+		// |Sec-WebSocket-Key| header field ... concatenate"), not over a re-encoding
+		const alpha = "ABCDEFGHIJKLMNOPQRSTUVWXYZabcdefghijklmnopqrstuvwxyz0123456789+/"
+		i := strings.IndexByte(alpha, key[21])
+		r.Key = key[:21] + string(alpha[i&^15|(1+rng.Intn(15))]) + "=="
+		add(keyHdr, " "+r.Key)
+		v.MarkOpen("non-canonical base64 spelling of a 16-byte key")
 	case "len16raw":
 		add(keyHdr, " 0123456789abcdef")
 		v.Reject("16-char key", 400)
